@@ -216,6 +216,7 @@ func (c *Ctx) retNil(fn *ssa.Function, idx int, wantNil bool) core.DNF {
 
 // nilCond conjoins "v is nil" (wantNil) or "v is not nil" to base, the reaching condition of block blk.
 func (c *Ctx) nilCond(r *core.Reach, blk *ssa.BasicBlock, base core.DNF, v ssa.Value, wantNil bool, depth int) core.DNF {
+	v = core.SpilledValue(v)
 	switch x := v.(type) {
 	case *ssa.Const:
 		if x.IsNil() == wantNil {
@@ -404,4 +405,45 @@ func (c *Ctx) OfUpTo(v ssa.Value, stop *ssa.Function) *core.Term {
 		return c.UpTo(p.Parent(), t, stop)
 	}
 	return t
+}
+
+// guardedResultWrites implements core.SpillGuardOK: every store of the closure to the captured cell is reached only
+// under `cell == nil` (the closure can add a failure, never hide one).
+func (c *Ctx) guardedResultWrites(mc *ssa.MakeClosure, cell *ssa.Alloc) bool {
+	fn, ok := mc.Fn.(*ssa.Function)
+	if !ok {
+		return false
+	}
+	var fv *ssa.FreeVar
+	for i, b := range mc.Bindings {
+		if b == ssa.Value(cell) && i < len(fn.FreeVars) {
+			fv = fn.FreeVars[i]
+		}
+	}
+	if fv == nil {
+		return false
+	}
+	if fv.Referrers() != nil {
+		for _, rf := range *fv.Referrers() {
+			if _, nested := rf.(*ssa.MakeClosure); nested {
+				return false
+			}
+		}
+	}
+	name := "fv:" + fv.Name()
+	isNil := c.M(true, isNilCmp(func(t *core.Term) bool { return t.String() == name }))
+	n := 0
+	for _, b := range fn.Blocks {
+		for _, in := range b.Instrs {
+			st, ok := in.(*ssa.Store)
+			if !ok || st.Addr != ssa.Value(fv) {
+				continue
+			}
+			n++
+			if !c.ReachOf(st).Implies(isNil) {
+				return false
+			}
+		}
+	}
+	return n > 0
 }
